@@ -1202,8 +1202,24 @@ func runC18RoundTrip(ctx *Ctx) {
 			impl = "ok " + encTy(it)
 		}
 		ctx.Add("gocty.implied", impl, tw, c18TagTab(f.rt))
+		realBridge, isReal := c18RealBridge(f.rt)
+		if isReal {
+			// the real ImpliedType on the Go type with arrays as slices and big numbers as int / float64
+			ctx.Add("gocty.bridge", realBridge, tw, c18TagTab(f.rt))
+			ctx.Tag("bridge:real-ImpliedType")
+			want := "err"
+			if berr == nil {
+				want = "ok " + encTy(bt)
+			}
+			if realBridge != want {
+				ctx.Fail(Failure{Site: "implied", Sig: "ImpliedType of the array-free, big-free variant differs from the documented mapping", What: "bridge type", Input: tw, GoLit: f.rt.String(), Outcome: realBridge})
+			}
+		}
 		if berr == nil {
-			ctx.Add("gocty.bridge", "ok "+encTy(bt), tw, c18TagTab(f.rt))
+			if !isReal {
+				ctx.Add("gocty.bridge", "ok "+encTy(bt), tw, c18TagTab(f.rt))
+				ctx.Tag("bridge:harness-mirror")
+			}
 			if pure && (ierr != nil || !it.Equals(bt)) {
 				ctx.Fail(Failure{Site: "implied", Sig: "ImpliedType differs from the documented mapping", What: "ImpliedType result", Input: tw, GoLit: f.rt.String(), Outcome: impl})
 			}
@@ -1211,7 +1227,10 @@ func runC18RoundTrip(ctx *Ctx) {
 				ctx.Fail(Failure{Site: "implied", Sig: "ImpliedType accepts an array or big number", What: "ImpliedType documents no cty type for arrays and big numbers", Input: tw, GoLit: f.rt.String(), Outcome: impl})
 			}
 		} else {
-			ctx.Add("gocty.bridge", "err", tw, c18TagTab(f.rt))
+			if !isReal {
+				ctx.Add("gocty.bridge", "err", tw, c18TagTab(f.rt))
+				ctx.Tag("bridge:harness-mirror")
+			}
 			if ierr == nil {
 				ctx.Fail(Failure{Site: "implied", Sig: "ImpliedType accepts a struct without cty tags", What: "a struct without tagged fields has no cty type", Input: tw, GoLit: f.rt.String(), Outcome: impl})
 			}
@@ -1240,20 +1259,35 @@ func runC18RoundTrip(ctx *Ctx) {
 		ctx.Tag("rt:" + f.rt.String())
 		ctx.Eval("rt "+gw+" "+tw, c18Nested(f.rt))
 		lit := fmt.Sprintf("g := %#v /* %s */; ty := %#v; v, _ := gocty.ToCtyValue(g, ty); var back %s; err := gocty.FromCtyValue(v, &back)", gv.Interface(), gw, ty, f.rt)
-		fail := func(outcome string) {
+		// the label of a failure is chosen by WHAT happened, not by what the generator was allowed to do:
+		// kind = "panic" | "refused" | "differs" (then d says how) | "other"
+		fail := func(outcome, kind string, d *c18Diff) {
 			if f.mistagged {
 				ctx.Tag("rt-mistagged-not-exact")
 				return
 			}
 			sig := "round trip does not reproduce the Go value"
 			switch {
-			case g.hitNFC:
+			case kind == "differs" && d != nil && !d.other && d.nilLevel:
+				// (NFC differences may come on top: both recorded findings in one value)
+				sig = "nil pointer to a pointer/slice/map/array/cty.Value type comes back as a non-nil pointer (or is refused)"
+			case kind == "differs" && d != nil && !d.other && d.nfc:
 				sig = "string or map key that is not NFC-normalized comes back normalized"
-			case g.hitNil:
+			case kind == "refused" && c18HasNilToNilable(gv):
 				sig = "nil pointer to a pointer/slice/map/array/cty.Value type comes back as a non-nil pointer (or is refused)"
 			}
+			if d != nil && d.first != "" {
+				outcome += " [" + d.first + "]"
+			}
+			ctx.Tag("rt-fail:" + kind)
 			ctx.Fail(Failure{Site: "roundtrip", Sig: sig, What: "FromCtyValue(ToCtyValue(g, implied type)) must reproduce g exactly, nil <-> null",
 				Input: gw + " " + tw, GoLit: lit, Outcome: outcome})
+		}
+		kindOf := func(impl string) string {
+			if impl == "err" {
+				return "refused"
+			}
+			return "panic"
 		}
 		if g.hitMixed {
 			// members of different types can not be one cty list/map: "exact or refuses" demands an error
@@ -1265,28 +1299,33 @@ func runC18RoundTrip(ctx *Ctx) {
 			return
 		}
 		if !strings.HasPrefix(implTo, "ok") {
-			fail("ToCtyValue: " + implTo)
+			fail("ToCtyValue: "+implTo, kindOf(implTo), nil)
 			return
 		}
 		implFrom, target, _, _, _ := c18From(v, f.rt)
 		c18AddFrom(ctx, implFrom, encVal(v), tw)
 		if !strings.HasPrefix(implFrom, "ok") {
-			fail("FromCtyValue: " + implFrom)
+			fail("FromCtyValue: "+implFrom, kindOf(implFrom), nil)
 			return
 		}
 		// encGoVal follows every pointer and prints the pointee, entry by entry: two entries that
 		// came back sharing one pointee print the same (last written) value and differ from gw
 		back := encGoVal(target.Elem())
 		if back != gw {
-			fail("came back as " + back)
+			d := &c18Diff{}
+			d.walk(gv, target.Elem(), "g")
+			if !d.nfc && !d.nilLevel && !d.other {
+				d.other = true // the canonical forms differ although the walk found nothing
+			}
+			fail("came back as "+back, "differs", d)
 			return
 		}
 		if !c18HasSpecial(f.rt) && !reflect.DeepEqual(target.Elem().Interface(), gv.Interface()) {
-			fail("reflect.DeepEqual is false although the canonical forms agree: " + back)
+			fail("reflect.DeepEqual is false although the canonical forms agree: "+back, "other", nil)
 			return
 		}
 		if shared := c18SharedPointee(target.Elem()); shared != "" {
-			fail("two entries of the decoded value share one pointee: " + shared)
+			fail("two entries of the decoded value share one pointee: "+shared, "other", nil)
 		}
 	}
 	// every member of the family once with all-distinct leaves, three entries per slice and map, no nil pointer
@@ -1413,6 +1452,15 @@ func c18Judge(ctx *Ctx, v cty.Value, rt reflect.Type, impl string, why string) {
 		// unmarked: judged at every depth (c18_d18shape.go)
 		c18JudgeDeep(ctx, v, rt, impl)
 		return
+	}
+	if impl == "panic" && v.ContainsMarked() && !strings.Contains(why, "marked") {
+		// the exemption is for the documented "value is marked, so must be unmarked first" panic only
+		ctx.Fail(Failure{Site: "no_panic_unmarked", Sig: "FromCtyValue panics on a marked value for a reason other than the marks", What: "a marked value may only panic because it is marked: " + why,
+			Input: vw + " " + tw, GoLit: lit, Outcome: "panic"})
+		return
+	}
+	if impl == "panic" && v.ContainsMarked() {
+		ctx.Tag("marked-panic:marks")
 	}
 	if impl == "panic" && !v.ContainsMarked() {
 		sig := "FromCtyValue panics on an unmarked value"
@@ -1593,10 +1641,12 @@ func runC18Regressions(ctx *Ctx) {
 func runC18(ctx *Ctx) {
 	runC18Regressions(ctx)
 	runC18Numbers(ctx)
+	runC18NumbersDeep(ctx)
 	runC18RoundTrip(ctx)
 	runC18Decode(ctx)
 	runC18NearMiss(ctx)
 	runC18Irregular(ctx)
+	runC18IrregularValues(ctx)
 	ctx.res.Exhaustive = true
 	ctx.res.Scope = fmt.Sprintf("every integer width/sign (10 types) x %d boundary numbers (2^k, k in {0,7,8,15,16,31,32,63,64}, both signs, +-1, +-0.5, huge, infinite, -0, low precision); "+
 		"float32/float64 x %d boundary numbers (overflow thresholds and neighbours, subnormal halves, double-rounding ties, infinities); %d fixed probes x every target type of the family (%d types)",
